@@ -5,7 +5,7 @@ from .. import cases, oracles
 from . import _align_common as ac
 
 TITLE = "Built-in dissimilarities compute their documented formula in both forms"
-DECIDING = ["M-FORMULA", "M-COMPILED", "M-KERNEL-VIA-CONTINUUM", "M-SYMMETRY", "M-LABEL-ORDER"]
+DECIDING = ["M-FORMULA", "M-COMPILED", "M-KERNEL-VIA-CONTINUUM", "M-SYMMETRY", "M-LABEL-ORDER", "M-OLDER-INSTANCE", "M-PRE-USE"]
 LEVEL = "exploration"
 RULE = ("a case = one dissimilarity instance (every built-in class; delta_empty, alpha, beta from the documented value "
         "sets; labels supplied sorted or shuffled; 1-300 categories; components built with the same or another "
@@ -13,7 +13,9 @@ RULE = ("a case = one dissimilarity instance (every built-in class; delta_empty,
         "each pair: d(), the compiled value through UnitaryAlignment(...).compute_disorder and through "
         "valid_alignments on a 2-annotator continuum, the documented formula, symmetry, non-negativity, zero on "
         "identical units; per instance: the same two names in a twin instance built with shuffled labels / extra "
-        "categories. non-trivial = pair of different units; distinct by SHA-1 of (instance, pairs)")
+        "categories; histories: a categorical component that was used (d() called) before being handed to the combined "
+        "constructor, and the previous case's instance measured again after the current one was built (several instances "
+        "alive at once). non-trivial = pair of different units; distinct by SHA-1 of (instance, pairs)")
 ASSUMPTIONS = [
     "tolerance |a-b| <= 1e-5*max(|a|,|b|) + 1e-6*delta_empty (compiled form is float32)",
     "generated times are float32-representable, so both forms see the same numbers",
@@ -118,16 +120,58 @@ def measure(dissim, u1, u2, via_continuum):
     return out
 
 
+_previous = {}
+
+
+def build_with_history(ctx, case):
+    """Builds the instance the way a user session might: for a combined dissimilarity with an explicit categorical
+    component, the component is built first and USED (d() on the case's pairs, checked against the component's own
+    formula with its own delta_empty), and only then handed to the combined constructor."""
+    import pygamma_agreement as pa
+    dspec = case["dissim"]
+    if dspec["kind"] != "combined" or not dspec.get("cat") or not case.get("pre_use"):
+        return cases.build_dissim(dspec)
+    comp_spec = dspec["cat"]
+    comp = cases.build_dissim(comp_spec)
+    from pygamma_agreement.continuum import Unit
+    from pyannote.core import Segment
+    cdelta = float(_f32(comp_spec["delta"]))
+    for (u1, u2) in case["pairs"][:10]:
+        ctx.count("M-PRE-USE")
+        v = float(comp.d(Unit(Segment(u1[0], u1[1]), u1[2]), Unit(Segment(u2[0], u2[1]), u2[2])))
+        ref = formula(comp_spec, u1, u2)
+        if ref is not None and not tol(v, ref, cdelta):
+            ctx.fail(f"{comp_spec['kind']}:component-d-differs-from-formula", {"pair": [u1, u2], "d": v, "formula": ref},
+                     monitor="M-FORMULA")
+    pos = None if dspec.get("pos") is None else pa.PositionalSporadicDissimilarity(dspec["pos"]["delta"])
+    return pa.CombinedCategoricalDissimilarity(alpha=dspec["alpha"], beta=dspec["beta"], delta_empty=dspec["delta"],
+                                               pos_dissim=pos, cat_dissim=comp)
+
+
 def check_case(ctx, case):
-    _, pool = ac.setup(ctx)
+    ac.setup(ctx)
     dspec = case["dissim"]
     try:
-        dissim = pool.get(dspec)
+        dissim = build_with_history(ctx, case)
     except Exception as e:
         ctx.fail_exc(f"constructor-raises:{type(e).__name__}", e, monitor="M-FORMULA")
         return
+    # an OLDER instance (the previous case's, still alive) is measured again now that a newer one has been built
+    prev = _previous.get("case")
+    if prev is not None and not case.get("is_recheck"):
+        ctx.count("M-OLDER-INSTANCE")
+        _measure_all(ctx, dict(prev["case"], pairs=prev["case"]["pairs"][:6], twin=None, is_recheck=True), prev["dissim"],
+                     tag="older-instance-after-a-newer-was-built:")
+    _previous["case"] = {"case": case, "dissim": dissim}
+    _measure_all(ctx, case, dissim, tag="")
+
+
+def _measure_all(ctx, case, dissim, tag):
+    dspec = case["dissim"]
     delta = float(_f32(dspec["delta"]))
     comp = cat_component(dspec)
+    if tag:
+        ctx = _Tagged(ctx, tag)
     prop_points = []   # (distance of positions or edit distance info, categorical value) for proportional classes
     for idx, (u1, u2) in enumerate(case["pairs"]):
         via = idx % 3 == 0
@@ -173,6 +217,22 @@ def check_case(ctx, case):
     twin = case.get("twin")
     if twin:
         check_twin(ctx, case, dissim, twin, delta)
+
+
+class _Tagged:
+    """Prefixes failure keys (history context) and forwards everything else to the real context."""
+
+    def __init__(self, ctx, tag):
+        self._ctx, self._tag = ctx, tag
+
+    def fail(self, key, detail, **kw):
+        self._ctx.fail(self._tag + key, detail, **kw)
+
+    def fail_exc(self, key, exc, **kw):
+        self._ctx.fail_exc(self._tag + key, exc, **kw)
+
+    def __getattr__(self, name):
+        return getattr(self._ctx, name)
 
 
 def check_proportional(ctx, dspec, comp, points, delta):
@@ -343,6 +403,23 @@ def gen_pairs(rng, labels, k):
 def run(ctx):
     ac.setup(ctx)
     rng = ctx.rng
+    # ---- histories that every worker runs: (1) a component of every categorical class, used before being wrapped by a
+    # combined dissimilarity with ANOTHER delta_empty; (2) several default-component combined dissimilarities with
+    # different delta_empty alive at the same time (each older one is measured again after the next was built)
+    block = []
+    for kind in ("precomputed", "levenshtein", "ordinal", "numerical", "absolute"):
+        comp = cases.gen_dissim(rng, [kind])
+        d = rng.choice([x for x in cases.DELTAS if x != comp["delta"]])
+        block.append({"kind": "combined", "alpha": rng.choice([0.5, 1.0, 3.0]), "beta": rng.choice([0.5, 1.0, 3.0]), "delta": d,
+                      "pos": None if rng.random() < 0.5 else {"delta": rng.choice(cases.DELTAS)}, "cat": comp})
+    for d in rng.sample(cases.DELTAS, 3):
+        block.append({"kind": "combined", "alpha": 1.0, "beta": rng.choice([1.0, 2.0]), "delta": d, "pos": None, "cat": None})
+    for dspec in block:
+        labels = cases.dissim_labels(dspec) or cases.LABELS_SMALL + ["Noun", "10"]
+        case = {"dissim": dspec, "pairs": gen_pairs(rng, labels, 14), "pre_use": True}
+        ctx.begin_case(case)
+        ctx.observe("class", "history-block/" + cat_component(dspec)["kind"])
+        check_case(ctx, case)
     n_inst = ctx.scale(40, 800)
     for i in range(n_inst):
         if ctx.out_of_time():
@@ -350,7 +427,7 @@ def run(ctx):
         big = (i % 8 == 3)
         dspec = gen_instance(rng, big=big)
         labels = cases.dissim_labels(dspec) or cases.LABELS_SMALL + ["Noun", "10"]
-        case = {"dissim": dspec, "pairs": gen_pairs(rng, labels, rng.randint(12, 24))}
+        case = {"dissim": dspec, "pairs": gen_pairs(rng, labels, rng.randint(12, 24)), "pre_use": rng.random() < 0.5}
         if rng.random() < 0.6:
             tw = make_twin(rng, dspec)
             if tw:
@@ -368,7 +445,7 @@ def run(ctx):
         if comp["kind"] in ("ordinal", "levenshtein", "numerical"):
             ctx.observe("labels_supplied_sorted", comp["cats"] == sorted(comp["cats"]))
         check_case(ctx, case)
-        # the pool would otherwise keep hundreds of compiled kernels alive
+        # the pool (twins) would otherwise keep hundreds of compiled kernels alive
         _, pool = ac.setup(ctx)
         if len(pool) > 60:
             pool._cache.clear()
